@@ -411,4 +411,55 @@ theorem vertical_perm_edges (l : Lattice) (hx : 0 < l.x) :
     exact (adjV_iff hx h1 h2).1 h3
 
 
+/-- `to_spin_orbital_index` is injective on (site, dof < n_dofs, spin < n_spin_values) -/
+theorem toSpinOrbitalIndex_inj (l : Lattice) {s d σ s' d' σ' : Nat}
+    (hd : d < l.nDofs) (hσ : σ < l.nSpinValues) (hd' : d' < l.nDofs) (hσ' : σ' < l.nSpinValues)
+    (h : l.toSpinOrbitalIndex s d σ = l.toSpinOrbitalIndex s' d' σ') : s = s' ∧ d = d' ∧ σ = σ' := by
+  unfold toSpinOrbitalIndex nSpinOrbitalsPerSite at h
+  set n := l.nSpinValues with hn
+  set k := l.nDofs with hk
+  have h1 : n * d + σ < n * k := (lt_mul_iff hσ).2 hd
+  have h1' : n * d' + σ' < n * k := (lt_mul_iff hσ').2 hd'
+  have e : (n * k) * s + (n * d + σ) = (n * k) * s' + (n * d' + σ') := by
+    have c1 : s * (k * n) = (n * k) * s := by rw [Nat.mul_comm k n, Nat.mul_comm]
+    have c2 : s' * (k * n) = (n * k) * s' := by rw [Nat.mul_comm k n, Nat.mul_comm]
+    have c3 : d * n = n * d := Nat.mul_comm _ _
+    have c4 : d' * n = n * d' := Nat.mul_comm _ _
+    omega
+  obtain ⟨hs, hrest⟩ := decomp_unique h1 h1' e
+  obtain ⟨hdd, hσσ⟩ := decomp_unique hσ hσ' hrest
+  exact ⟨hs, hdd, hσσ⟩
+
+/-- … and stays below `n_spin_orbitals` -/
+theorem toSpinOrbitalIndex_lt (l : Lattice) {s d σ : Nat} (hs : s < l.nSites) (hd : d < l.nDofs) (hσ : σ < l.nSpinValues) :
+    l.toSpinOrbitalIndex s d σ < l.nSites * l.nSpinOrbitalsPerSite := by
+  unfold toSpinOrbitalIndex nSpinOrbitalsPerSite
+  set n := l.nSpinValues
+  set k := l.nDofs
+  have h1 : n * d + σ < n * k := (lt_mul_iff hσ).2 hd
+  have h2 : (n * k) * s + (n * d + σ) < (n * k) * l.nSites := (lt_mul_iff h1).2 hs
+  have c1 : s * (k * n) = (n * k) * s := by rw [Nat.mul_comm k n, Nat.mul_comm]
+  have c3 : d * n = n * d := Nat.mul_comm _ _
+  have c5 : l.nSites * (k * n) = (n * k) * l.nSites := by rw [Nat.mul_comm k n, Nat.mul_comm]
+  omega
+
+/-- `spin_pairs_iter`: exactly the pairs the docstring lists -/
+theorem mem_spinPairs (l : Lattice) (sp : Nat) (ordered : Bool) (s t : Nat) :
+    (s, t) ∈ l.spinPairs sp ordered ↔ s < l.nSpinValues ∧ t < l.nSpinValues ∧
+      (match sp with
+       | 0 => ordered = true ∨ s ≤ t
+       | 1 => s = t
+       | _ => if ordered then s ≠ t else s < t) := by
+  unfold spinPairs
+  match sp with
+  | 0 => simp [List.mem_flatMap, List.mem_map, List.mem_filter, List.mem_range]
+  | 1 =>
+    simp only [List.mem_map, List.mem_range, Prod.mk.injEq]
+    constructor
+    · rintro ⟨a, ha, rfl, rfl⟩; exact ⟨ha, ha, rfl⟩
+    · rintro ⟨h1, _, h3⟩; exact ⟨s, h1, rfl, h3⟩
+  | k + 2 =>
+    cases ordered <;> simp [List.mem_flatMap, List.mem_map, List.mem_filter, List.mem_range]
+
+
 end OFV.C13
